@@ -75,7 +75,20 @@ func (f *readStore) next(kind string) int {
 	return f.w.nth[kind+f.host]
 }
 
+func (f *readStore) writeOnly(what string) bool {
+	if f.tier != "hotw" {
+		return false
+	}
+	f.w.mu.Lock()
+	f.w.log = append(f.w.log, fmt.Sprintf("write-only host %s asked to %s", f.host, what))
+	f.w.mu.Unlock()
+	return true
+}
+
 func (f *readStore) Search(ctx context.Context, in *pb.SearchRequest, _ ...grpc.CallOption) (*pb.SearchResponse, error) {
+	if f.writeOnly("search") {
+		return nil, errors.New("not a read store")
+	}
 	n := f.next("search/")
 	alts := []string{"ok", "error", "old-data-code", "old-data-msg", "too-many-fractions"}
 	if f.tier == "cold" {
@@ -148,6 +161,9 @@ func packDoc(id seq.ID, body string) []byte {
 }
 
 func (f *readStore) Fetch(ctx context.Context, in *pb.FetchRequest, _ ...grpc.CallOption) (pb.StoreApi_FetchClient, error) {
+	if f.writeOnly("fetch") {
+		return nil, errors.New("not a read store")
+	}
 	n := f.next("fetch/")
 	alts := []string{"ok", "open-error", "break-after-0", "break-after-1", "missing-doc", "extra-unknown-doc", "swapped"}
 	out := alts[vdec.Ask(fmt.Sprintf("fetch/%s/#%d", f.host, n), len(alts))]
@@ -194,10 +210,17 @@ type rtopo struct {
 	ColdShards, ColdReplicas int
 	Offset, Size             int
 	Asc                      bool
+	// HotRead: reads are served from --hot-read-stores (the usual hot shards), while --hot-stores names other
+	// hosts (write-only replicas), which must never be asked to search or fetch
+	HotRead bool `json:"HotRead,omitempty"`
 }
 
 func (t rtopo) String() string {
-	return fmt.Sprintf("hot%dx%d-cold%dx%d off=%d size=%d asc=%v", t.HotShards, t.HotReplicas, t.ColdShards, t.ColdReplicas, t.Offset, t.Size, t.Asc)
+	hr := ""
+	if t.HotRead {
+		hr = " hot-read-stores"
+	}
+	return fmt.Sprintf("hot%dx%d-cold%dx%d off=%d size=%d asc=%v%s", t.HotShards, t.HotReplicas, t.ColdShards, t.ColdReplicas, t.Offset, t.Size, t.Asc, hr)
 }
 
 type c16Case struct {
@@ -235,7 +258,12 @@ func c16Run(tp rtopo) *c16Result {
 	hot := mk("hot", tp.HotShards, tp.HotReplicas)
 	cold := mk("cold", tp.ColdShards, tp.ColdReplicas)
 	empty := &stores.Stores{Shards: [][]string{}, Vers: []string{}}
-	ing := search.NewIngestor(search.Config{HotStores: hot, HotReadStores: empty, ReadStores: cold, WriteStores: empty, ShuffleReplicas: true}, clients)
+	hotRead := empty
+	if tp.HotRead {
+		hotRead = hot
+		hot = mk("hotw", 1, 2) // write-only replicas: any call to them is logged and fails
+	}
+	ing := search.NewIngestor(search.Config{HotStores: hot, HotReadStores: hotRead, ReadStores: cold, WriteStores: empty, ShuffleReplicas: true}, clients)
 	order := seq.DocsOrderDesc
 	if tp.Asc {
 		order = seq.DocsOrderAsc
@@ -281,6 +309,12 @@ func c16Check(r *vlib.Run, tp rtopo, assign map[string]int) {
 	if res.panicV != nil {
 		r.Violation(fmt.Sprintf("proxy search panics: %v", trunc(fmt.Sprint(res.panicV), 80)), cse, detail+fmt.Sprintf("\npanic %v", res.panicV))
 		return
+	}
+	for _, l := range res.w.log {
+		if strings.HasPrefix(l, "write-only host") {
+			r.Violation("with --hot-read-stores configured a host that is only in --hot-stores was asked "+tp.String(), cse, detail)
+			return
+		}
 	}
 	partial := errors.Is(res.err, consts.ErrPartialResponse)
 	if res.err != nil && !partial {
@@ -416,7 +450,7 @@ func c16Plans(thorough bool) ([]c16Plan, int) {
 		for hr := 1; hr <= 3; hr++ {
 			for _, cold := range [][2]int{{0, 0}, {1, 1}, {1, 2}, {2, 1}, {2, 2}} {
 				for _, os := range [][2]int{{0, 1}, {0, 3}, {1, 3}, {1, 1}} {
-					tp := rtopo{hs, hr, cold[0], cold[1], os[0], os[1], (hs+hr+os[0])%2 == 0}
+					tp := rtopo{hs, hr, cold[0], cold[1], os[0], os[1], (hs+hr+os[0])%2 == 0, (hs*3+hr+cold[0]+os[1])%4 == 0}
 					b := bigBound
 					if hs*hr <= 2 && cold[0]*cold[1] <= 1 && os[1] == 3 && os[0] == 0 {
 						b = -1
@@ -485,7 +519,7 @@ func TestVerifC16(t *testing.T) {
 			r.Merge(exp)
 		}
 	})
-	r.Sample(c16Case{rtopo{2, 2, 1, 1, 0, 3, false}, map[string]int{"search/hot-s0-r0/#1": 1, "fetch/hot-s1-r0/#1": 4}})
+	r.Sample(c16Case{rtopo{2, 2, 1, 1, 0, 3, false, false}, map[string]int{"search/hot-s0-r0/#1": 1, "fetch/hot-s1-r0/#1": 4}})
 	ev := r.Get("evaluations")
 	r.Finish(t, "fault_enumeration",
 		fmt.Sprintf("topologies hot {1..3}x{1..3} x long-term {none,1x1,1x2,2x1,2x2} x (offset,size) in {(0,1),(0,3),(1,3),(1,1)}, order alternating; each fake shard holds a 3-document corpus and answers Search correctly; environment events: every Search call (ok / error / wants-old-data as status code and as error message / too-many-fractions), every Fetch call (ok / open error / stream breaks after 0 or 1 documents / first document missing / an extra unknown document first / first two documents swapped), every replica shuffle; all assignments for <=2 hot replicas and <=1 long-term replica (offset 0, size 3), at most %d deviations otherwise. Oracle: plain error, or IDs = page of the merged order over exactly the shards with an answering replica of the consulted tier, partial flag iff some shard had none, long-term tier consulted iff a hot store wants old data, stream has exactly len(IDs) entries and the i-th is the i-th ID's document, or empty only if a fetch call to a replica of its shard failed; no panic", bigBound),
